@@ -416,6 +416,10 @@ def main(args):
                     jobs.append({"stratum": name, "a": a, "b": b, "warm": False, "budget_steps": 100000, "rng": seeds.rng_for(seed, PROP, "pair:%d:cold%d" % (i, rep_i)), "by_line": True})
     n_pairs = len(ordered)
     with make_farm() as farm:
+        from simkit import seamprobe
+
+        if not seamprobe.guard(farm, rep):
+            return rep.finish({"evaluations": 0, "distinct_nontrivial": 0, "rule": RULE, "samples": []}, ASSUMPTIONS)
         explore_pairs(farm, rep, jobs, st, seed)
         nseeded = 150 if tier == "quick" else 6000
         explore_seeded(farm, rep, pairs, tier, seed, st, nseeded)
